@@ -35,6 +35,9 @@ CHECKS = {
  "C11": ("sweep", "exhaustive sweep of start offsets x record-length windows x write shapes at the data-file layer, format-agnostic round-trip oracle",
             "for every start offset of the sweep set, every record length in +-48 windows around the end-of-block boundaries for records spanning 1-3 blocks, single writes and FlushStaged groups, both back-ends: sequential and random read-back, positions, sizes, EOF, byte-identical files, reopen+append; hint records through the same writer/reader",
             "quick tier sweeps 768 of the 32768 start offsets, thorough all; lengths beyond 3 blocks are not swept", "DESIGN.md §6 C11"),
+ "C12": ("corrupt", "exhaustive single-position fault enumeration over small closed databases (every bit flip, byte substitution, run, truncation, block substitution), each faulted image opened and read with the real code",
+            "for every byte of every data and hint file of images covering every record kind: all single-bit flips, 0x00/0xFF substitutions, runs of 2..64 bytes, all truncation lengths, block substitutions; oracle: no panic, no bytes never written for that key, no phantom key, through the sequential reader, Open, Get, ListKeys, Fold",
+            "serving an older value of the same key is not judged; multi-chunk image is faulted near block boundaries and on a stride", "DESIGN.md §6 C12"),
  "C13": seq("operation sequences under every SyncStrategy x BytesPerSync x I/O back-end; at the return of every public call the per-file unflushed-byte accounting derived from the intercepted write/fsync/msync events is judged against the policy (Always, Threshold, Sync batch, Sync(), Close(), rotation)",
             "flush is judged at (*os.File).Sync / mmap Flush; MMap writes are seen through a recording wrapper of (*MMap).Write; only *.data files of the data directory", "DESIGN.md §6 C13"),
  "C14": seq("every operation sequence within the bound is executed in lock-step under 16-20 configurations; complete transcripts (results, errors, iteration orders, recovered mapping) must be identical; within equal (DataFileSize, sync strategy) also Stat and, for batch-free sequences, the data-file bytes",
